@@ -2,7 +2,9 @@ CONSTANTS
   MaxChains = 2
   MaxFactors = 2
   Emit = FALSE
+  OrGuard = TRUE
 INIT Init
 NEXT Next
 INVARIANT ClassesExact
+INVARIANT Equivalent
 CHECK_DEADLOCK FALSE
